@@ -667,7 +667,7 @@ def run_e2e(ctx, cov, dist):
     for n in ("pdcp", "rpdcp"):
         if not os.path.lexists(os.path.join(bindir, n)):
             os.symlink(os.path.join(repo, "src/pdsh/pdsh"), os.path.join(bindir, n))
-    nruns = 7 if ctx.quick() else 60
+    nruns = 8 if ctx.quick() else 60
     future = int(time.time()) + 50000000
     dist["e2e_runs"] = 0
     for k in range(nruns):
@@ -690,7 +690,7 @@ def run_e2e(ctx, cov, dist):
         # the first runs pin the corners of the command-line rules: exactly two list entries (-y), one entry (no -y),
         # -p on and off in both directions, no -r for plain files
         plan = [dict(p=1, shape="emptydir"), dict(p=1, shape="any"), dict(p=0, shape="file"), dict(p=0, shape="any"),
-                dict(p=1, shape="two"), dict(p=1, shape="file"), dict(p=0, shape="twofiles-destfile")]
+                dict(p=1, shape="two"), dict(p=1, shape="file"), dict(p=0, shape="twofiles-destfile"), dict(p=0, shape="unreadable")]
         shape = "any"
         if k < len(plan):
             p, shape = plan[k]["p"], plan[k]["shape"]
@@ -699,6 +699,14 @@ def run_e2e(ctx, cov, dist):
         elif shape == "file":
             trees = [Node(b"file.txt", "f", 0o640, 1300000001, gen=(77, 10240))]
             r = 0
+        elif shape == "unreadable":
+            # a file the (unprivileged) user cannot read INSIDE a source directory: it may cost that file (or the run may
+            # be refused), but pdcp must terminate, say so, and every other file that arrives must be intact
+            reverse = False
+            trees = [Node(b"tree", "d", 0o755, 1300000000, kids=[
+                Node(b"a_first", "f", 0o644, 1300000001, gen=(71, 11)), Node(b"b_unreadable", "f", 0, 1300000002, gen=(72, 37)),
+                Node(b"c_last", "f", 0o644, 1300000003, gen=(73, 11)),
+                Node(b"d_sub", "d", 0o755, 1300000004, kids=[Node(b"inner", "f", 0o644, 1300000005, gen=(74, 5))])])]
         elif shape == "twofiles-destfile":
             # two plain files, and on ONE target the destination is an existing regular file: that target must be
             # reported and its file left alone, the other targets get both files (seeded change C11-3: -y rule)
@@ -713,7 +721,8 @@ def run_e2e(ctx, cov, dist):
             if all(t.kind == "f" for t in trees) and rng.random() < 0.5:
                 r = 0
         for t in trees:
-            tame(t)
+            if shape != "unreadable":
+                tame(t)
         bw = os.fsencode(w)
         roots = [bw + b"/" + h.encode() + b"/rsrc" for h in HOSTS3] if reverse else [bw + b"/src"]
         destfile_host = "h2" if shape == "twofiles-destfile" else None
@@ -745,13 +754,40 @@ def run_e2e(ctx, cov, dist):
         full = ["setpriv", "--reuid", "1000", "--regid", "1000", "--clear-groups"] + env + cmd
         cj = dict(e2e=True, command=" ".join(cmd), sources=[describe(t) for t in trees])
         try:
-            pr = subprocess.run(full, cwd=w, stdout=subprocess.PIPE, stderr=subprocess.PIPE, timeout=120)
+            pr = subprocess.run(full, cwd=w, stdout=subprocess.PIPE, stderr=subprocess.PIPE,
+                                timeout=10 if shape == "unreadable" else 120)
         except subprocess.TimeoutExpired:
+            if shape == "unreadable":
+                subprocess.run(["pkill", "-u", "1000", "-f", wrapper])
+                cov["evaluations"] += 1
+                dist["e2e_runs"] += 1
+                ctx.offender("e2e:unreadable-source-file-hangs", "pdcp -r of a directory that holds a file the user cannot "
+                             "read does not terminate (the `C` record is sent, the data cannot be, the receiver waits for "
+                             "it and takes the following records for it): " + " ".join(cmd), cj)
+                shutil.rmtree(w, ignore_errors=True)
+                continue
             ctx.offender("timeout", "pdcp/rpdcp end to end run hangs: " + " ".join(cmd), cj)
             continue
         cov["evaluations"] += 1
         dist["e2e_runs"] += 1
         cj["rc"], cj["stderr"] = pr.returncode, pr.stderr.decode("latin-1")[-400:]
+        if shape == "unreadable":
+            if b"b_unreadable" not in pr.stderr:
+                ctx.offender("e2e:unreported", "a source file that cannot be read was not reported: rc=%d %s" % (
+                    pr.returncode, pr.stderr.decode("latin-1")[-200:]), cj)
+            for h in HOSTS3:
+                snap = pcp.snapshot(os.path.join(w, h, "dst"))
+                for path, r_ in snap.items():
+                    node = dict(walk(trees[0], [])).get(path)
+                    if r_["kind"] == "f" and (node is None or (r_["data"] != pcp.lcg_bytes(*node.gen) and not (
+                            node.name == b"b_unreadable" and r_["data"] == b""))):
+                        ctx.offender("e2e:fidelity", "target %s: %r arrived damaged next to a source file that cannot be "
+                                     "read" % (h, path), dict(cj, target=h))
+            dist["e2e_unreadable_source"] = "terminates, rc=%d, %s" % (
+                pr.returncode, "nothing copied" if len(pcp.snapshot(os.path.join(w, HOSTS3[0], "dst"))) <= 1
+                else "the other files copied")
+            shutil.rmtree(w, ignore_errors=True)
+            continue
         if destfile_host:
             kept = os.path.isfile(os.path.join(w, destfile_host, "dst")) and \
                 open(os.path.join(w, destfile_host, "dst"), "rb").read() == b"precious data in a plain file called dst\n"
